@@ -625,6 +625,9 @@ func c14Fullwidth(s string) string {
 }
 
 func c14Variant(r *vh.Rng, s string) (string, string) {
+	if s == "" {
+		return s, "exact"
+	}
 	switch r.Intn(8) {
 	case 0, 1:
 		return s, "exact"
@@ -1059,4 +1062,82 @@ func c14Fixed() []*c14Scn {
 			{kind: 'p', u: "alice", p: "pb"},
 		}},
 	}
+}
+
+// ---------------------------------------------------------------- source-shape facts (T1)
+
+// TestVerifC14Skel re-derives, from the source files of the current tree, the call skeletons the Lean model
+// was written from (how often and where the user name is mapped, which identity is reported, which key
+// function every table entry point uses). The driver answers with the expectation (Expect/AuthSkel.lean).
+func TestVerifC14Skel(t *testing.T) {
+	out := vh.Open("c14_skel")
+	defer out.Close()
+	if rep := vh.Replay(); rep != nil {
+		found := false
+		for _, l := range rep {
+			found = found || strings.HasPrefix(l, "C14 skel ")
+		}
+		if !found {
+			return
+		}
+	}
+	fact := func(name string, parts []string, err error) {
+		if err != nil {
+			out.Corr("C14 skel "+name, "cannot derive: "+err.Error())
+			return
+		}
+		out.Corr("C14 skel "+name, strings.Join(parts, " "))
+		out.Stat("skel.fact")
+	}
+	missing := fmt.Errorf("function or closure not found")
+
+	src, err := vauth.ParseSrc("../sasl.go")
+	if err != nil {
+		t.Fatal(err)
+	}
+	interesting := func(c string) bool {
+		return strings.HasSuffix(c, ".usernameForAuth") || strings.HasSuffix(c, ".AuthPlain") || c == "successCb"
+	}
+	isCb := func(c string) bool { return c == "successCb" }
+	if fd := src.Func("SASLAuth", "CreateSASL"); fd != nil {
+		for name, callee := range map[string]string{"plain-closure": "sasl.NewPlainServer", "login-closure": "sasllogin.NewLoginServer"} {
+			if lit := src.FuncLitArg(fd.Body, callee); lit != nil {
+				fact(name, src.Calls(lit.Body, interesting, isCb), nil)
+			} else {
+				fact(name, nil, missing)
+			}
+		}
+	} else {
+		fact("plain-closure", nil, missing)
+		fact("login-closure", nil, missing)
+	}
+	if fd := src.Func("SASLAuth", "AuthPlain"); fd != nil {
+		fact("sasl-authplain", src.Calls(fd.Body, interesting, nil), nil)
+	} else {
+		fact("sasl-authplain", nil, missing)
+	}
+	if fd := src.Func("SASLAuth", "usernameForAuth"); fd != nil {
+		fact("username-for-auth", src.Calls(fd.Body, func(c string) bool {
+			return strings.HasSuffix(c, ".AuthNormalize") || strings.HasSuffix(c, ".Lookup")
+		}, nil), nil)
+	} else {
+		fact("username-for-auth", nil, missing)
+	}
+
+	tsrc, err := vauth.ParseSrc("table.go")
+	if err != nil {
+		t.Fatal(err)
+	}
+	var keys []string
+	for _, fn := range []string{"AuthPlain", "CreateUserHash", "SetUserPassword", "DeleteUser"} {
+		fd := tsrc.Func("Auth", fn)
+		if fd == nil {
+			keys = append(keys, fn+":missing")
+			continue
+		}
+		for _, c := range tsrc.Calls(fd.Body, func(c string) bool { return strings.HasSuffix(c, ".CompareKey") || strings.HasSuffix(c, ".Enforce") || strings.HasSuffix(c, ".String") && strings.HasPrefix(c, "precis.") }, nil) {
+			keys = append(keys, fn+":"+c)
+		}
+	}
+	fact("table-keys", keys, nil)
 }
